@@ -81,12 +81,24 @@ def run_cases(res: Result, rng: random.Random, per_entry: int, n_raw: int, oracl
                 d.add(f"AVPVAL {ty} {r}")
     # raw well-formed wire AVPs (unknown codes, reserved flag bits, every length residue)
     for i in range(n_raw):
-        if rng.random() < 0.5:
+        k = rng.random()
+        if k < 0.4:
             code, vendor, e = rng.choice(ents)
+        elif k < 0.6:
+            # a dictionary code under a vendor that does not define it (unknown
+            # vendor, another vendor's dictionary, or no vendor): must stay untyped
+            code, _v, _e = rng.choice(ents)
+            vendor = rng.choice([0, 99999, 10415, 13019, 5535, 4242424242])
+            import realcodec as _rc
+            e = (_rc.D.AVP_DICTIONARY.get(code) if vendor == 0
+                 else _rc.D.AVP_VENDOR_DICTIONARY.get(vendor, {}).get(code))
         else:
             code = rng.choice([0, 1, rng.getrandbits(32), 2**32 - 1])
             vendor = rng.choice([0, 0, rng.getrandbits(32) or 1])
             e = None
+        import realcodec as _rc
+        e = (_rc.D.AVP_DICTIONARY.get(code) if vendor == 0
+             else _rc.D.AVP_VENDOR_DICTIONARY.get(vendor, {}).get(code))
         ty = 0
         if e is not None:
             ty = ty_of(e["type"](0))
@@ -100,6 +112,12 @@ def run_cases(res: Result, rng: random.Random, per_entry: int, n_raw: int, oracl
             continue
         obj, pos, dty, _ = r.split(" ")
         want_obj = f"{code}.{vendor}.{flags}.{data.hex()}"
+        if int(dty) != ty:
+            fails_here = {"what": "decoded AVP is not an instance of the dictionary's type for (code, vendor) "
+                                  "(untyped for pairs the dictionary does not define)",
+                          "line": f"AVPDEC {wire}", "real": r, "expected_type_tag": ty}
+            oracle_fail.append(fails_here)
+            continue
         if obj != want_obj or int(pos) != len(wire) // 2:
             oracle_fail.append({"what": "decode of well-formed AVP differs from the wire", "line": f"AVPDEC {wire}",
                                 "real": r, "expected": want_obj})
